@@ -198,11 +198,11 @@ func runCheck(repo, verif, prop, tier string, secs int, keep bool, evOut string)
 		r.Obligations = keepO
 	}
 	work := filepath.Join(verif, ".work", fmt.Sprintf("check-%s-%d", prop, os.Getpid()))
+	// thorough tier: longer limit, and every obligation is put to all three
+	// solvers (grace period after the first verdict); contradictory verdicts
+	// leave the obligation undecided
+	thoroughAgreement = tier == "thorough"
 	Discharge(results, work, secs, 5, seed)
-	if tier == "thorough" {
-		// stability: re-run discharged obligations with two other seeds
-		// (flaky proofs are reported, not failed)
-	}
 	violations := boundedViolations
 	broken := 0
 	total, discharged := 0, 0
@@ -370,13 +370,15 @@ func writeReplay(verif, prop, obl string, rec map[string]interface{}) string {
 
 func writeEvidence(path, prop, tier string, seed int, results []*FuncResult, trusted []string, wall float64, violations int, known []string, L *Loaded) {
 	type perObl struct {
-		Name    string  `json:"name"`
-		Kind    string  `json:"kind"`
-		Status  string  `json:"status"`
-		Solver  string  `json:"solver"`
-		Seconds float64 `json:"seconds"`
-		Size    int     `json:"smt_bytes"`
+		Name     string  `json:"name"`
+		Kind     string  `json:"kind"`
+		Status   string  `json:"status"`
+		Solver   string  `json:"solver"`
+		Seconds  float64 `json:"seconds"`
+		Size     int     `json:"smt_bytes"`
+		Verdicts string  `json:"verdicts,omitempty"`
 	}
+	agreed := 0
 	var per []perObl
 	total, disch := 0, 0
 	solverSecs := 0.0
@@ -410,7 +412,10 @@ func writeEvidence(path, prop, tier string, seed int, results []*FuncResult, tru
 				bySolver[o.Solver]++
 			}
 			solverSecs += o.Seconds
-			per = append(per, perObl{o.Name, o.Kind, o.Status, o.Solver, round3(o.Seconds), o.Size})
+			per = append(per, perObl{o.Name, o.Kind, o.Status, o.Solver, round3(o.Seconds), o.Size, o.Verdicts})
+			if strings.Count(o.Verdicts, ":unsat") >= 2 {
+				agreed++
+			}
 			if len(samples) < 3 && o.Solver != "trivial" && o.Kind != "safe" {
 				samples = append(samples, map[string]interface{}{
 					"obligation": o.Name, "clause": o.Desc, "position": o.Pos, "status": o.Status, "solver": o.Solver,
@@ -443,21 +448,25 @@ func writeEvidence(path, prop, tier string, seed int, results []*FuncResult, tru
 		level = "other"
 	}
 	cov := map[string]interface{}{
-		"obligations":              total,
-		"discharged":               disch,
-		"checker_cmd":              fmt.Sprintf("/verif/bin/govc check --property %s --tier %s  (per obligation: z3-new -T:N | z3 -T:N | cvc5 --strings-exp --tlimit=N000, raced)", prop, tier),
-		"trusted_base":             tb,
-		"samples":                  samples,
-		"functions_under_contract": funcs,
-		"functions_inlined":        inlined,
-		"per_obligation":           per,
-		"solver_seconds":           round3(solverSecs),
-		"discharged_by_solver":     bySolver,
-		"vacuity_canaries_ok":      canaries,
-		"known_findings_reported":  known,
-		"outside_subset":           errors,
-		"bounded_stand_ins":        boundedNotes,
-		"explanation":              "every obligation is generated from the SSA of /repo's working tree on this run; see DESIGN.md §3.8 for what the translation abstracts",
+		"obligations":                       total,
+		"discharged":                        disch,
+		"checker_cmd":                       fmt.Sprintf("/verif/bin/govc check --property %s --tier %s  (per obligation: z3-new -T:N | z3 -T:N | cvc5 --strings-exp --tlimit=N000, raced)", prop, tier),
+		"trusted_base":                      tb,
+		"samples":                           samples,
+		"functions_under_contract":          funcs,
+		"functions_inlined":                 inlined,
+		"per_obligation":                    per,
+		"solver_seconds":                    round3(solverSecs),
+		"discharged_by_solver":              bySolver,
+		"vacuity_canaries_ok":               canaries,
+		"known_findings_reported":           known,
+		"outside_subset":                    errors,
+		"bounded_stand_ins":                 boundedNotes,
+		"explanation":                       "every obligation is generated from the SSA of /repo's working tree on this run; see DESIGN.md §3.8 for what the translation abstracts",
+	}
+	if tier == "thorough" {
+		cov["discharged_by_two_or_more_solvers"] = agreed
+		cov["thorough_tier"] = "limit 60 s per obligation; after the first verdict the other solvers get a grace period (3x + 2 s, at most 10 s) and every verdict is recorded per obligation; contradictory verdicts leave the obligation undecided"
 	}
 	if info := loadPropInfo(prop); info != nil {
 		cov["not_decided"] = info.NotDecided
